@@ -52,7 +52,9 @@ def setup():
     for ln in open(os.path.join(common.LEAN, "lakefile.toml")):
         ln = ln.strip()
         if ln.startswith("name = \"") and ln.endswith("_driver\""):
-            exes.append(ln.split('"')[1])
+            n = ln.split('"')[1]
+            if os.path.exists(os.path.join(common.LEAN, "Vita", n[:3].upper(), "Driver.lean")):
+                exes.append(n)
     ok2, out2 = common.lake_build(exes, timeout=3600)
     if not ok2:
         common.log(common.lean_errors(out2)[:2000])
